@@ -36,12 +36,18 @@ partial def ntNestToSexp : NT (Nest String) → Sexp
 
 def optInt? : Sexp → Option (Option Int) := asOptInt?
 
+def maskBit? : Sexp → Option Bool
+  | .atom "true" => some true
+  | .atom "false" => some false
+  | _ => none
+
 def ix? : Sexp → Option Ix
   | .atom "none" => some .none
   | .atom "ell" => some .ell
   | .list [.atom "int", i] => (asInt? i).map .int
   | .list [.atom "slice", a, b, c] => do pure (.slice (← optInt? a) (← optInt? b) (← optInt? c))
   | .list (.atom "list" :: l) => (ints? l).map .list
+  | .list (.atom "mask" :: l) => (l.mapM maskBit?).map .mask
   | _ => none
 
 def ierrToSexp : IErr → Sexp
